@@ -482,3 +482,9 @@ class HushSuite(Suite):
 
 
 SUITES = [QuoteSuite(), HushSuite(), ExecSuite()]
+
+
+def extra_obligations(tier):
+    """the translated part of the model: regenerated from the current source and re-proved equal to what the theorems use"""
+    from vlib import gen
+    return gen.obligations(only=["gen_hush_quote_is_the_model", "gen_board_constants_are_the_model"])
